@@ -194,7 +194,7 @@ PROPS = {
                         "Go int overflow of feed bounds is out of scope"],
     },
     "C19": {
-        "lean_modules": ["Props.Facts19", "Props.Facts19b"],
+        "lean_modules": ["Props.Facts19", "Props.Facts19b", "Props.Gen19"],
         "groups": [{"name": "C19", "quick": 3000, "thorough": 60000},
                    {"name": "C19x", "quick": 4000, "thorough": 16777216, "workers": 16},
                    # processes started with the smallest accepted sizes, then used: fetches under cache_size = 1 and 2
@@ -343,7 +343,7 @@ MANIFEST_TEXT = {
         "technique": "Lean 4 proof (refinement to zipper / two-sided sequence by induction over operations) over a model proved equal to the Lean translation of the Go source regenerated on every run + differential correspondence",
     },
     "C19": {
-        "text": "Lean theorems for all strings and all decoded configurations: hexToAnsi accepts exactly '#' + six hex digits and yields three decimal components 0..255; an accepted configuration satisfies Config.Safe (non-empty hook, cache >= 1, 0 <= preload <= MaxInt32, timeout >= 0 and converted to nanoseconds in wrapping int64 arithmetic without wrap-around, well-formed colours), a rejected one names an invalid key, valid ones are accepted, the defaults are safe. Tied to config.go by differential correspondence through a package-internal shim on generated TOML files; colour well-formedness is also checked on every implementation output; thorough walks all 16^6 colours.",
+        "text": "Lean theorems for all strings and all decoded configurations: hexToAnsi accepts exactly '#' + six hex digits and yields three decimal components 0..255; an accepted configuration satisfies Config.Safe (non-empty hook, cache >= 1, 0 <= preload <= MaxInt32, timeout >= 0 and converted to nanoseconds in wrapping int64 arithmetic without wrap-around, well-formed colours), a rejected one names an invalid key, valid ones are accepted, the defaults are safe. Tied to config.go twice: the Config struct, the defaults of parse and postprocess are translated to Lean on every run (extract/go2lean4.go -> Generated/GoConfig.lean, sizes in wrapping 64-bit arithmetic) and proved equal to the model, so that the safety theorem holds of the translated code itself (Props/Gen19.lean); and by differential correspondence through a package-internal shim on generated TOML files; colour well-formedness is also checked on every implementation output; thorough walks all 16^6 colours.",
         "design_ref": "DESIGN.md §5 C19",
         "note": "Trusted: Lean kernel; correspondence check (testing); TOML decoding; strconv as modelled.",
         "technique": "Lean 4 proof (character-level case analysis) + differential correspondence, exhaustive colour space in thorough",
